@@ -35,6 +35,19 @@ pub fn gen(prop: &str, tier: &str, seed: u64, out: &mut Vec<String>) {
                 }
             }
         }
+        // flip / copy of sparse (incomplete) outboards
+        "FLIPZ" => {
+            for bs in 0u32..=3 {
+                for size in size_classes(bs, if t { 20 } else { 9 }) {
+                    if size <= (1024u64 << bs) {
+                        continue;
+                    }
+                    for m in [1u64, 2, 3] {
+                        out.push(format!("flipz {} {size} {bs} {m}", r.below(1 << 30)));
+                    }
+                }
+            }
+        }
         // io::Error conversions, Display, source()
         "MISCERR" => {
             let mut ns: Vec<u64> = vec![0, 1, 2, 3, 4, 5, 7, 11, 1023, 1024, (1 << 32) - 1, 1 << 40, (1 << 53) - 1, (1 << 54) + 3, (1 << 62) - 1, (1 << 63) - 2];
